@@ -106,3 +106,28 @@ Definition policy_C17 : policy := mk_policy
 
 Definition entries_C17 : list string := ["updogDriver.openFile"; "fileConn.Close"].
 Definition funs_C17 : list string := entries_C17 ++ ["updogDriver.release"].
+
+(** The largest number of acquisitions of lock [l] on any path through a skeleton (calls of
+    analysed functions inlined up to [fuel]; a loop that acquires counts as "many").  An entry
+    point with at most one acquisition whose guarded accesses all lie under [l] (well_locked)
+    performs them inside ONE critical section. *)
+Fixpoint max_acq (pol : policy) (funs : funtab) (l : string) (fuel : nat) (s : stmt) : nat :=
+  match fuel with
+  | O => 99
+  | S f =>
+      (fix go (s : stmt) : nat :=
+         match s with
+         | Acq l' _ => if String.eqb l l' then 1 else 0
+         | Seq a b => go a + go b
+         | Branch a b => Nat.max (go a) (go b)
+         | Loop a => if Nat.eqb (go a) 0 then 0 else 99
+         | Call loc meth =>
+             match effect_of pol loc meth with
+             | Some (ECall fn) => match lookup_fun funs fn with Some body => max_acq pol funs l f body | None => 99 end
+             | Some _ => 0
+             | None => 99
+             end
+         | Unsupported _ => 99
+         | _ => 0
+         end) s
+  end.
